@@ -30,6 +30,7 @@ theorem generated_racy_sites_known : racySites.all (["Components.MapToTags.Run"]
 
 
 
+
 -- BEGIN PINS (written by bin/mkpins; do not edit by hand)
 /-- the Go functions this property's model and obligations were written against have exactly the
 pinned skeletons (SHA-256 prefix of the atom list) -/
